@@ -278,6 +278,21 @@ def auto_discharge(world, fn, s, const_only_fns):
                     e = expr(body, defs, other)
                     if "parse" not in json.dumps(e):
                         return "ADD-SMALL: usize index/length/counter plus a small constant cannot exceed usize::MAX (allocations are <= isize::MAX)"
+    if kind == "assert:overflow":
+        # `s.matches(P).count() - 1` where the site is dominated by `s.strip_suffix(P)` / `strip_prefix(P)` being Some or `ends_with` / `starts_with` /
+        # `contains(P)` being true for the same s and P: a string that ends with (starts with, contains) P has at least one match of P
+        for st in body["blocks"][s["block"]]["s"]:
+            if st[0] == "=" and st[2][0] == "bin" and st[2][1] == "SubWithOverflow" and st[2][3].get("k") == "const" and st[2][3].get("v") == 1:
+                defs_ = roots(body)
+                e_ = expr(body, defs_, st[2][2])
+                if e_[0] == "call" and e_[1].endswith("Iterator::count") and e_[2] and e_[2][0][0] == "call" and e_[2][0][1].endswith("<impl str>::matches"):
+                    subject = e_[2][0][2]
+                    for cond, truth in dominating_guards(M.Cfg(body), body, defs_, s["block"]):
+                        if cond[0] == "switch" and truth and cond[2] == (1,) and not cond[3] and cond[1][0] == "discr" and cond[1][1][0] == "call" and \
+                           cond[1][1][1].rsplit("::", 1)[-1] in ("strip_suffix", "strip_prefix") and cond[1][1][2] == subject:
+                            return "COUNT-NONZERO: the count of matches of a pattern the string was just found to end / start with is at least 1"
+                        if cond[0] == "call" and truth and cond[1].rsplit("::", 1)[-1] in ("ends_with", "starts_with", "contains") and "<impl str>" in cond[1] and cond[2] == subject:
+                            return "COUNT-NONZERO: the count of matches of a pattern the string was just found to end / start with / contain is at least 1"
     if kind in ("assert:rem_zero", "assert:div_zero") and s.get("cond") is not None:
         c_ = expr(body, roots(body), s["cond"])          # Eq(divisor, 0), asserted false
         if c_[0] == "bin" and c_[1] == "Eq" and any(o[0] == "const" and isinstance(o[1], int) and o[1] != 0 for o in c_[2:4]) and \
